@@ -44,6 +44,12 @@ type HPACK struct {
 	// COMPRESSION_ERROR on a header that indexed one of them.
 	// https://tools.ietf.org/html/rfc7541#section-6.3
 	pendingSizeUpdate bool
+
+	// minPendingSize is the smallest maximum set since the last announcement.
+	// When the size changed more than once between two header blocks the
+	// smallest value has to be signalled before the final one, or the peer
+	// keeps entries that were evicted here (RFC 7541 4.2).
+	minPendingSize uint32
 }
 
 func headerFieldsToString(hfs []*HeaderField, indexOffset int) string {
@@ -104,6 +110,10 @@ func (hp *HPACK) Reset() {
 func (hp *HPACK) SetMaxTableSize(size uint32) {
 	if hp.maxTableSize == size && hp.maxTableSizeSettings == size {
 		return
+	}
+
+	if !hp.pendingSizeUpdate || size < hp.minPendingSize {
+		hp.minPendingSize = size
 	}
 
 	hp.maxTableSizeSettings = size
@@ -585,6 +595,10 @@ func (hp *HPACK) AppendHeader(dst []byte, hf *HeaderField, store bool) []byte {
 	// follows the change.
 	if hp.pendingSizeUpdate {
 		hp.pendingSizeUpdate = false
+
+		if hp.minPendingSize < hp.maxTableSize {
+			dst = appendInt(append(dst, 0x20), 5, uint64(hp.minPendingSize))
+		}
 
 		dst = appendInt(append(dst, 0x20), 5, uint64(hp.maxTableSize))
 	}
